@@ -75,6 +75,8 @@ type VC struct {
 	funcsDone  []string
 	specErrors []string
 	loopHeads  map[*ssa.Function]map[*ssa.BasicBlock]*loopInfo
+	canaries   map[string][]*Obligation
+	canaryOrder []string
 }
 
 func newVC() *VC {
@@ -85,7 +87,7 @@ func newVC() *VC {
 		leafCache: map[string][]leaf{}, arrSorts: map[string]Sort{}, arrInfo: map[string]arrInfo{}, needCard: map[string]Sort{},
 		strLits: map[string]int{"": 0}, typeIDs: map[string]int{}, funcIDs: map[string]int{},
 		abstracted: map[string]map[string]bool{}, inlined: map[string]map[string]bool{}, maxPaths: 20000,
-		ssaPkgs: map[string]*ssa.Package{}, loopHeads: map[*ssa.Function]map[*ssa.BasicBlock]*loopInfo{},
+		canaries: map[string][]*Obligation{}, ssaPkgs: map[string]*ssa.Package{}, loopHeads: map[*ssa.Function]map[*ssa.BasicBlock]*loopInfo{},
 	}
 }
 
